@@ -26,7 +26,6 @@ import (
 	"io"
 	"net"
 	"net/http"
-	"net/http/httputil"
 	"net/url"
 	"sync"
 	"syscall"
@@ -36,6 +35,9 @@ import (
 	"github.com/talostrading/sonic/sonicerrors"
 	"github.com/talostrading/sonic/sonicopts"
 )
+
+// The head of the server's handshake response (status line and headers) must fit in this many bytes.
+const maxHandshakeResponseLength = 64 * 1024
 
 type Stream struct {
 	ioc *sonic.IO
@@ -945,30 +947,39 @@ func (s *Stream) upgrade(uri *url.URL, stream sonic.Stream, headers []Header) er
 		return err
 	}
 
-	s.handshakeBuffer = s.handshakeBuffer[:cap(s.handshakeBuffer)]
-	n, err := stream.Read(s.handshakeBuffer)
-	if err != nil {
-		return err
+	// The response head ends with an empty line. It may arrive in several segments, and the segment carrying its end
+	// may also carry the first frames.
+	s.handshakeBuffer = s.handshakeBuffer[:0]
+	headLen := -1
+	for headLen < 0 {
+		if len(s.handshakeBuffer) == cap(s.handshakeBuffer) {
+			if cap(s.handshakeBuffer) >= maxHandshakeResponseLength {
+				return ErrCannotUpgrade
+			}
+			s.handshakeBuffer = append(s.handshakeBuffer, make([]byte, cap(s.handshakeBuffer))...)[:len(s.handshakeBuffer)]
+		}
+
+		n, err := stream.Read(s.handshakeBuffer[len(s.handshakeBuffer):cap(s.handshakeBuffer)])
+		if err != nil {
+			return err
+		}
+		s.handshakeBuffer = s.handshakeBuffer[:len(s.handshakeBuffer)+n]
+
+		if end := bytes.Index(s.handshakeBuffer, []byte("\r\n\r\n")); end >= 0 {
+			headLen = end + 4
+		}
 	}
-	s.handshakeBuffer = s.handshakeBuffer[:n]
-	rd := bytes.NewReader(s.handshakeBuffer)
-	res, err := http.ReadResponse(bufio.NewReader(rd), req)
+
+	res, err := http.ReadResponse(bufio.NewReader(bytes.NewReader(s.handshakeBuffer[:headLen])), req)
 	if err != nil {
 		return err
 	}
 
-	rawRes, err := httputil.DumpResponse(res, true)
-	if err != nil {
-		return err
-	}
-
-	resLen := len(rawRes)
-	extra := len(s.handshakeBuffer) - resLen
-	if extra > 0 {
+	if extra := s.handshakeBuffer[headLen:]; len(extra) > 0 {
 		// we got some frames as well with the handshake so we can put
 		// them in src for later decoding before clearing the handshake
 		// buffer
-		_, _ = s.src.Write(s.handshakeBuffer[resLen:])
+		_, _ = s.src.Write(extra)
 	}
 	s.handshakeBuffer = s.handshakeBuffer[:0]
 
